@@ -445,6 +445,11 @@ func WalkLive(s *skiplist.Skiplist, cmp func(a, b unsafe.Pointer) int, itemSize 
 		}
 		below = cur
 	}
+	// searches, deletes and the unlink pass start at the list's level: a node linked above it is
+	// invisible to them (a later delete leaves it linked there)
+	if top := s.VerifLevel(); r.MaxLevelSeen > top {
+		addp("nodes are linked at level %d but the list's level is %d: searches and deletes start below them", r.MaxLevelSeen, top)
+	}
 	return r
 }
 
@@ -604,8 +609,9 @@ func linkedAt(s *skiplist.Skiplist, p unsafe.Pointer, bound int) int {
 	tok := s.GetAccesBarrier().Acquire()
 	defer s.GetAccesBarrier().Release(tok)
 	head, tail := s.HeadNode(), s.TailNode()
-	top := s.VerifLevel()
-	for lvl := top; lvl >= 0; lvl-- {
+	// every level, not only those up to the list's current level: a node linked above it is
+	// exactly what the searches of the code under test cannot see
+	for lvl := skiplist.MaxLevel; lvl >= 0; lvl-- {
 		n, _ := head.VerifNext(lvl)
 		for steps := 0; n != nil && n != tail && steps < bound; steps++ {
 			if unsafe.Pointer(n) == p {
@@ -663,7 +669,7 @@ func runWithDeadlockProbe(fn string, f func()) (done, stuck bool) {
 	go func() { defer close(ch); f() }()
 	wait := 250 * time.Millisecond
 	lastSig, same := "", 0
-	for i := 0; i < 60; i++ {
+	for i := 0; i < 300; i++ {
 		select {
 		case <-ch:
 			return true, false
